@@ -19,8 +19,34 @@ def configs(tier):
     return single, pairs
 
 
+class Stuck(Exception):
+    pass
+
+
+def _alarm(signum, frame):
+    raise Stuck()
+
+
+def reference(mod, cfg):
+    import signal
+    signal.signal(signal.SIGALRM, _alarm)
+    signal.alarm(120)
+    try:
+        return W.run_history(mod, cfg, ())
+    finally:
+        signal.alarm(0)
+
+
 def run_one(mod, cfg, ints, ref):
-    world, status, tree = W.run_history(mod, cfg, tuple(ints))
+    import signal
+    signal.signal(signal.SIGALRM, _alarm)
+    signal.alarm(60)  # one history takes milliseconds; a minute means the script (or its recovery) does not terminate
+    try:
+        world, status, tree = W.run_history(mod, cfg, tuple(ints))
+    except Stuck:
+        return "ok", ["the script did not finish a history within 60 s (it loops without launching anything)"]
+    finally:
+        signal.alarm(0)
     if status.startswith("not-fired"):
         return status, None
     v = W.compare(ref[0], ref[1], world, tree)
@@ -36,7 +62,7 @@ def main():
     if a.replay:
         d = json.load(open(a.replay))["input"]
         cfg, ints = d["cfg"], [tuple(x) if isinstance(x, list) else x for x in d["interruptions"]]
-        ref_world, st, ref_tree = W.run_history(mod, cfg, ())
+        ref_world, st, ref_tree = reference(mod, cfg)
         st, v = run_one(mod, cfg, ints, (ref_world, ref_tree))
         print(json.dumps({"violations": [dict(d, what="; ".join(v[:3]))] if v else []})); return
     single, pairs = configs("quick" if a.search else a.tier)
@@ -47,22 +73,28 @@ def main():
             viol.append({"cfg": cfg, "interruptions": [list(x) if isinstance(x, tuple) else x for x in ints], "what": "; ".join(v[:3]), "site": "orchestration script resume (%s)" % cfg["mode"]})
 
     for cfg in single:
-        rw, st, rt = W.run_history(mod, cfg, ())
+        try:
+            rw, st, rt = reference(mod, cfg)
+        except Stuck:
+            note(cfg, (), ["the uninterrupted campaign does not terminate within 120 s"]); continue
         if rw.violations:
             note(cfg, (), rw.violations); continue
         for inv in range(cfg["n_invocations"]):
             n = 0
-            while True:
+            while not viol:
                 st, v = run_one(mod, cfg, ((inv, n),), (rw, rt))
                 if st == "not-fired-1": break
                 total += 1
                 if v: note(cfg, ((inv, n),), v)
                 n += 1
     for cfg in pairs:
-        rw, st, rt = W.run_history(mod, cfg, ())
+        try:
+            rw, st, rt = reference(mod, cfg)
+        except Stuck:
+            note(cfg, (), ["the uninterrupted campaign does not terminate within 120 s"]); continue
         for inv in range(cfg["n_invocations"]):
             n, done = 0, False
-            while not done:
+            while not done and not viol:
                 for m in range(W.PAIR_WINDOW):
                     st, v = run_one(mod, cfg, ((inv, n), m), (rw, rt))
                     if st == "not-fired-1": done = True; break
